@@ -22,6 +22,8 @@ var typeSeeds = []string{
 	"ARRAY<INT64>", "ARRAY<ARRAY<INT64>>", "ARRAY<STRUCT<a INT64, b STRING>>", "STRUCT<>", "STRUCT<INT64>", "STRUCT<a INT64>", "STRUCT<a INT64, STRING>",
 	"STRUCT<a ARRAY<INT64>>", "STRUCT<a STRUCT<b STRUCT<c INT64>>>", "ARRAY<STRUCT<a ARRAY<STRUCT<b INT64>>>>", "a.b.c", "foo", "`a b`.c", "ARRAY<a.b>", "STRUCT<x a.b, y ARRAY<c>>",
 	"ARRAY< INT64 >", "STRUCT < a INT64 , b STRUCT < > >", "array<struct<a int64>>",
+	"ARRAY<STRUCT< >>", "STRUCT<a INT64, b STRUCT< >>", "ARRAY<STRUCT</* c */>>", "ARRAY<STRUCT<\n>>", "ARRAY<ARRAY<STRUCT< >>>", "ARRAY<STRUCT<>>", "ARRAY<STRUCT< > >", "STRUCT<STRUCT<>>", "STRUCT<a STRUCT< >, b INT64>",
+	"ARRAY<ARRAY<INT64> >", "ARRAY<ARRAY<INT64 >>", "ARRAY<ARRAY<INT64/*c*/>>", "ARRAY<ARRAY<INT64>/*c*/>",
 }
 
 // treeWorkload yields (entry, input) cases for the tree properties: the corpus (clean and bad) under its entries,
@@ -823,7 +825,7 @@ func RunC10(c *Ctx) {
 	idx := 0
 	for _, s := range []struct{ e, in string }{
 		{"expr", "1 + a/*c*/b"}, {"expr", "(1 +/*c*/+ /*d*/)"}, {"expr", "f(1 -/*c*/-"}, {"query", "SELECT a b/*c*/c d"}, {"statement", "SELEC/*c*/T 1"},
-		{"type", "ARRAY<ARRAY<1>>"}, {"type", "ARRAY<STRUCT<a 1>>"}, {"type", "STRUCT<a ARRAY<>>"}, {"type", "ARRAY<ARRAY<ARRAY<1 2>>>"}, {"expr", "CAST(1 AS ARRAY<ARRAY<1>>)"},
+		{"type", "ARRAY<ARRAY<1>>"}, {"type", "ARRAY<STRUCT<a 1>>"}, {"type", "ARRAY<STRUCT<x INT64 y /* c */>>"}, {"type", "ARRAY<ARRAY<1 /*c*/>>"}, {"expr", "CAST(1 AS ARRAY<STRUCT<a 1 -- c\n>>)"}, {"type", "ARRAY<STRUCT<a 1 >>"}, {"type", "ARRAY<ARRAY<1 2/**/>> "}, {"type", "STRUCT<a ARRAY<>>"}, {"type", "ARRAY<ARRAY<ARRAY<1 2>>>"}, {"expr", "CAST(1 AS ARRAY<ARRAY<1>>)"},
 		{"expr", "CAST(1 AS ARRAY<STRUCT<a 1, b 2>>) + (3 4)"}, {"statement", "CREATE TABLE t (a ARRAY<ARRAY<>>)"}, {"expr", "(1 + (2 + (3 4) 5) 6)"}, {"query", "SELECT (SELECT (SELECT 1 1) 2) 3"},
 		{"expr", ").select"}, {"expr", "a) . select * 1"}, {"statements", "SELECT 1 1; SELECT 2 2; x"}, {"ddls", "CREATE TABLE (; DROP x y z"}, {"dmls", "INSERT INTO; DELETE x y"},
 	} {
